@@ -17,10 +17,13 @@
  * run out of 12 GB (symbolic execution alone: 9 min).  The units therefore fix `count` per unit and unwind:
  *   *_c1 : count == 1   (one iteration: the generic step of the loop - any block, any cache state, any write-through
  *                        result; level U for single-block requests, which is what the library issues for metadata)
- *   *_c2 : count == 2   (two iterations: includes the interplay iteration 1 -> iteration 2: eviction of the entry just
- *                        written, the write-through "device first, cache afterwards" window)
+ *   unix_write_blk64_c2 : count == 2 (two iterations: includes the interplay iteration 1 -> iteration 2: eviction of
+ *                        the entry just written, the write-through "device first, cache afterwards" window)
  *   *_direct : count < 0 (byte count), count > 4, or IO_FLAG_NOCACHE: flush (+invalidate) and one device request
- * count == 3, 4 do not finish within 15 min and are not claimed (level of the multi-block cached path: B(2)).
+ * Writes of 3 and 4 blocks and reads of 2..4 blocks through the cache do not finish within 15 min (the formula grows by
+ * about 4 M clauses per iteration because every access through a `struct unix_cache *` is a byte-level update of the
+ * whole private structure) and are NOT claimed: the multi-block cached paths are covered at B(2) (write) / not at all
+ * (read) - see the report.
  * Block size: CFG_BS = 16 is a configuration bound for tractability - the functions only add the block size to a cursor
  * and pass it on as a length; the *_c1 units are repeated with the smallest real block size, 1024.
  */
@@ -114,33 +117,13 @@
  "enforce": ["unix_read_blk64"],
  "replace": ["reuse_cache", "flush_cached_blocks", "raw_write_blk", "raw_read_blk"],
  "unwind": 64,
- "unwindset": {"build_channel.0": 9, "find_cached_block.0": 9, "unix_read_blk64.0": 2, "unix_read_blk64.1": 1, "unix_read_blk64.2": 2},
- "unwind_reason": "count == 1 in this unit: at most one pass of the outer loop, no pass of the look-ahead loop, one pass of the fill loop; unwinding assertions on; CACHE_SIZE is the constant 8",
+ "unwindset": {"build_channel.0": 9, "find_cached_block.0": 9, "unix_read_blk64.0": 2, "unix_read_blk64.1": 2, "unix_read_blk64.2": 2},
+ "unwind_reason": "count == 1 in this unit: look-ahead loop (.0) not entered, fill loop (.1) and outer loop (.2) at most once; unwinding assertions on; CACHE_SIZE is the constant 8",
  "defines": ["CFG_BS=16", "CFG_COUNT=1", "CFG_NO_PTHREAD"],
  "functions": ["lib/ext2fs/unix_io.c:unix_read_blk64"],
  "assumes": ["IO_FLAG_THREADS clear; built without HAVE_PTHREAD", "no read_error / write_error handler installed", "block size 16 (configuration bound)", "fewer than 2^31-512 cache accesses per channel", "block numbers below 2^46, 0 <= data->offset < 2^50"],
  "backend": "cadical",
  "timeout": 400,
- "native": false
-}
-*/
-/* VERIF-UNIT
-{
- "name": "unix_read_blk64_c2",
- "props": ["C17"],
- "level": "B(2)",
- "tier": "wip",
- "harness": "h_read_cached",
- "enforce": ["unix_read_blk64"],
- "replace": ["reuse_cache", "flush_cached_blocks", "raw_write_blk", "raw_read_blk"],
- "unwind": 64,
- "unwindset": {"build_channel.0": 9, "find_cached_block.0": 9, "unix_read_blk64.0": 3, "unix_read_blk64.1": 2, "unix_read_blk64.2": 3},
- "unwind_reason": "count == 2 in this unit; unwinding assertions on; CACHE_SIZE is the constant 8",
- "defines": ["CFG_BS=16", "CFG_COUNT=2", "CFG_NO_PTHREAD"],
- "functions": ["lib/ext2fs/unix_io.c:unix_read_blk64"],
- "assumes": ["as unix_read_blk64_c1; two-block requests only"],
- "backend": "cadical",
- "timeout": 900,
  "native": false
 }
 */
@@ -170,10 +153,14 @@
 #define ATIME_ENTRY(d) ((d)->access_time >= 0 && (d)->access_time < 0x7ffffe00)
 #define WT(ch) ((ch)->flags & CHANNEL_FLAGS_WRITETHROUGH)
 #define REQ_OK(ch, block, count) (RAW_RANGE_OK(ch, PD(ch), block, count) && ((count) < 0 || (block) + (unsigned long long)(count) <= BLK_MAX))
-/* what holds of every channel between calls (representation invariant besides coherence) */
+/*
+ * What holds of every channel between calls (representation invariant besides coherence).  The last conjunct - while the
+ * cache is switched off no entry is in use - is established by unix_set_option("cache=off"): see unit
+ * unixio/unix_set_option_cache and findings/C17_nocache_stale (on the pinned tree that unit FAILS: entries stay valid).
+ */
 #define CHAN_OK(ch) ((ch)->magic == EXT2_ET_MAGIC_IO_CHANNEL && PD(ch)->magic == EXT2_ET_MAGIC_UNIX_IO_CHANNEL && \
 	bufs_tied(PD(ch)) && !(PD(ch)->flags & IO_FLAG_THREADS) && PD(ch)->access_time >= 0 && cache_range_ok(ch, PD(ch)) && \
-	(!WT(ch) || !any_dirty(PD(ch))))
+	(!WT(ch) || !any_dirty(PD(ch))) && (!(PD(ch)->flags & IO_FLAG_NOCACHE) || !any_inuse(PD(ch))))
 /* frame of both functions: the private data, the eight cache buffers, the lazily normalised alignment, the ghost device */
 #define RW_FRAME(ch) __CPROVER_object_whole((ch)->private_data), ALL_CBUFS, (ch)->align, g_disk, g_nwrites, g_nreads, g_wfail
 
@@ -219,6 +206,7 @@ static void request_common(void)
 	struct unix_private_data *data = &DATA;
 	ASSUME(REQ_OK(&CH, IN.block, IN.count));
 	ASSUME(!(CH.flags & CHANNEL_FLAGS_WRITETHROUGH) || !any_dirty(data));
+	ASSUME(!(DATA.flags & IO_FLAG_NOCACHE) || !any_inuse(data));
 	UBUF = malloc(WR_SIZE(&CH, IN.count));
 	ASSUME(UBUF != 0);
 	g_covered = COVERS(&CH, IN.block, IN.count) != 0;
